@@ -6,6 +6,8 @@ import NflowsModel.Lemmas.SplineExec
 import NflowsModel.Lemmas.RQBin
 import NflowsModel.Lemmas.RQWhole
 import NflowsModel.Lemmas.RQInverseWhole
+import NflowsModel.Lemmas.CubicWhole
+import NflowsModel.Lemmas.QuadWhole
 /-!
 # C09 — spline transformers are increasing bijections of their box, identity in the tails
 
@@ -213,5 +215,43 @@ theorem rq_program_knots (e : Float → ℝ) (c : RQCfg) (uw uh ud : List ℝ) (
     RQWhole.val e c uw uh ud (RQWhole.xs e c uw j) = RQWhole.ys e c uh j ∧
     RQInverseWhole.inv e c uw uh ud (RQWhole.ys e c uh j) = RQWhole.xs e c uw j :=
   ⟨RQInverseWhole.val_knot hv j hj, RQInverseWhole.inv_knot hv j hj⟩
+
+/-! ## the executed cubic and quadratic programs as wholes -/
+
+/-- **End to end, cubic forward**: the value the executed program `cubicSpline … false` returns is a strictly increasing
+    BIJECTION of `[left, right]` onto `[bottom, top]` pinning the corners — every `K ≥ 1`, every unnormalised parameters,
+    every box; knot derivatives are shown to lie in the monotone (Fritsch–Carlson) region, the final clamp is inactive. -/
+theorem cubic_program_bijection (e : Float → ℝ) (c : CCfg) (uw uh : List ℝ) (udl udr : ℝ) (hv : CubicWhole.CubicValid e c uw uh) :
+    StrictMonoOn (CubicWhole.val e c uw uh udl udr) (Set.Icc (e c.box.left) (e c.box.right)) ∧
+    Set.BijOn (CubicWhole.val e c uw uh udl udr) (Set.Icc (e c.box.left) (e c.box.right)) (Set.Icc (e c.box.bottom) (e c.box.top)) ∧
+    CubicWhole.val e c uw uh udl udr (e c.box.left) = e c.box.bottom ∧
+    CubicWhole.val e c uw uh udl udr (e c.box.right) = e c.box.top :=
+  ⟨CubicWhole.val_strictMonoOn hv, CubicWhole.val_bijOn hv, (CubicWhole.val_endpoints hv).1, (CubicWhole.val_endpoints hv).2⟩
+
+example : CubicWhole.CubicValid CubicWhole.eNV CubicWhole.cNV [0, 0] [0, 0] := CubicWhole.valid_example
+
+/-- **End to end, quadratic forward, bounded shape** (`|uh| = K + 1`) -/
+theorem quad_program_bijection (e : Float → ℝ) (c : QCfg) (uw uh : List ℝ) (hv : QuadWhole.QuadValid e c uw uh) :
+    StrictMonoOn (QuadWhole.val e c uw uh) (Set.Icc (e c.box.left) (e c.box.right)) ∧
+    Set.BijOn (QuadWhole.val e c uw uh) (Set.Icc (e c.box.left) (e c.box.right)) (Set.Icc (e c.box.bottom) (e c.box.top)) ∧
+    QuadWhole.val e c uw uh (e c.box.left) = e c.box.bottom ∧ QuadWhole.val e c uw uh (e c.box.right) = e c.box.top :=
+  ⟨QuadWhole.val_strictMonoOn hv, QuadWhole.val_bijOn hv, (QuadWhole.val_endpoints hv).1, (QuadWhole.val_endpoints hv).2⟩
+
+/-- **End to end, quadratic forward, tails shape** (`|uh| = K − 1`, `K ≥ 2`: the padding constant is computed by the program) -/
+theorem quad_tails_program_bijection (e : Float → ℝ) (c : QCfg) (uw uh : List ℝ) (hv : QuadWhole.QuadValidT e c uw uh) :
+    StrictMonoOn (QuadWhole.val e c uw uh) (Set.Icc (e c.box.left) (e c.box.right)) ∧
+    Set.BijOn (QuadWhole.val e c uw uh) (Set.Icc (e c.box.left) (e c.box.right)) (Set.Icc (e c.box.bottom) (e c.box.top)) ∧
+    QuadWhole.val e c uw uh (e c.box.left) = e c.box.bottom ∧ QuadWhole.val e c uw uh (e c.box.right) = e c.box.top :=
+  ⟨QuadWhole.val_strictMonoOn_T hv, QuadWhole.val_bijOn_T hv, (QuadWhole.val_endpoints_T hv).1, (QuadWhole.val_endpoints_T hv).2⟩
+
+/-- the normalisation the quadratic code relies on holds exactly over ℝ: heights positive, total area 1, so both
+    `[..., -1] = 1` pins change nothing -/
+theorem quad_program_normalised (e : Float → ℝ) (c : QCfg) (uw uh : List ℝ) (hv : QuadWhole.QuadValid e c uw uh) :
+    (∀ h ∈ QuadWhole.hts e c (QuadWhole.Wq e c uw) (QuadWhole.Uq e uh), 0 < h) ∧
+    (QuadWhole.ars e c (QuadWhole.Wq e c uw) (QuadWhole.Uq e uh)).sum = 1 :=
+  ⟨(QuadWhole.normalisation hv).1, (QuadWhole.normalisation hv).2.1⟩
+
+example : QuadWhole.QuadValid QuadWhole.eNV QuadWhole.cNV [0] [0, 0] := QuadWhole.valid_example
+example : QuadWhole.QuadValidT QuadWhole.eT QuadWhole.cNV [0, 0] [0] := QuadWhole.valid_example_T
 
 end Properties.C09
